@@ -56,3 +56,108 @@ def spec_c13(tier, seed):
         stubs=['S1', 'S2', 'S3', 'S6', 'S7 SimTransport', 'S8 recording handler'],
         assumptions=['(c) frame-level SimTransport stands in for a real transport'],
     )
+
+
+def spec_c03(tier, seed):
+    q = tier == 'quick'
+    fmax = 100000 if q else 16777215
+    tuples = [(0, 0), (1, 1), (55, 0), (56, 0), (0, 55), (0, 56), (30, 55), (100, 60)]
+    if not q:
+        tuples += [(51, 0), (52, 0), (0, 51), (0, 52), (54, 1), (110, 0), (0, 110), (58, 55), (200, 130), (1, 120)]
+    classes_b = (0, 4) if q else (0, 1, 2, 3, 4)
+    bparts = [{'cls': c, 'dlen': d, 'mlen': m, 'fsize': 64, 'lenhdr': lh, 'spans': False}
+              for c in classes_b for (d, m) in tuples for lh in (True, False)]
+    if not q:
+        bparts += [{'cls': c, 'dlen': d, 'mlen': m, 'fsize': 97, 'lenhdr': True, 'spans': False}
+                   for c in (0, 3) for (d, m) in ((88, 0), (89, 0), (0, 88), (40, 88), (300, 100))]
+    return dict(
+        conds=[
+            Cond('c03_fragments', 'c_span_pipeline', parts=[{'cls': c, 'fmax': fmax} for c in range(5)],
+                 timeout=400 if q else 1200),
+            Cond('c03_fragments', 'w_three_fragments_meta_boundary', parts=[{'fmax': fmax}], timeout=120),
+            Cond('c03_fragments', 'c_bytes_pipeline', parts=bparts, timeout=200),
+            Cond('c03_fragments', 'c_no_fragment_size', parts=[{'cls': c} for c in range(5)], timeout=120),
+            Cond('c03_fragments', 'c_min_fragment_size', timeout=60),
+        ],
+        explanation='real FrameFragmenter / get_next_fragment / new_frame_fragment / serialize_frame_prefix / '
+                    'FrameFragmentCache executed symbolically with data length, metadata length, fragment size, framing '
+                    'mode, complete flag and request-n as solver variables (payload content as opaque spans whose merge '
+                    'fails unless contiguous); per-fragment size/flag/order assertions and exact reassembly; tied to real '
+                    'bytes by a second condition on symbolic byte content at boundary length tuples through '
+                    'serialize -> parse_or_ignore -> cache',
+        bounds=['fragment size in [64, %d]' % fmax, 'data and metadata length each in [0, 2*size+4] (0..3+ fragments each)',
+                'both framing modes, all five fragmentable frame classes, request-n in [1, 2^31-1]',
+                'bytes tie: %d (class, dlen, mlen, size, framing) tuples with symbolic content' % len(bparts)],
+        outside=['payloads longer than 2*size+4 (only repeat the middle-fragment case)', 'fragment sizes above the bound'],
+        functions=['rsocket.frame_fragmenter.FrameFragmenter.__iter__', 'rsocket.frame_fragmenter.FrameFragmenter.__init__',
+                   'rsocket.frame_fragmenter.data_to_fragments_if_required', 'rsocket.frame.FrameFragmentMixin.get_next_fragment',
+                   'rsocket.frame.new_frame_fragment', 'rsocket.frame.Frame.serialize_frame_prefix',
+                   'rsocket.frame.Frame.compute_frame_length', 'rsocket.frame_fragment_cache.FrameFragmentCache.append',
+                   'rsocket.frame_fragment_cache.FrameFragmentCache._frame_fragment_builder',
+                   'rsocket.frame_fragment_cache.FrameFragmentCache._merge_frame_content_inplace',
+                   'rsocket.rsocket_base.RSocketBase._assert_valid_fragment_size', 'rsocket.frame.parse_or_ignore',
+                   'rsocket.frame.serialize_with_frame_size_header'],
+        stubs=['S1', 'S2', 'S3', 'S4 (BytesIO -> pure-Python reader; span reader for spans)', 'Span stand-in for payload content'],
+        assumptions=['the fragmenter, length computation and cache only take len(), slice and concatenate payload content '
+                     '(span stand-in); checked against real bytes by c_bytes_pipeline and by every replay'],
+    )
+
+
+def _c02_parts(q):
+    dm = [(0, 0), (1, 0), (0, 1), (3, 2)] if q else [(a, b) for a in (0, 1, 3) for b in (0, 1, 3)] + [(17, 9)]
+    parts = []
+    for ft in (4, 5, 6, 7, 10):
+        parts += [{'ft': ft, 'lens': [d, m, 0, 0, 0]} for d, m in dm]
+    setup = [(0, 0, 0, 0, 0), (1, 1, 2, 1, 3), (3, 0, 0, 127, 16)]
+    if not q:
+        setup += [(2, 3, 3, 127, 127), (0, 2, 1, 0, 127), (1, 0, 3, 16, 0), (0, 3, 0, 1, 1)]
+    parts += [{'ft': 1, 'lens': list(t)} for t in setup]
+    parts += [{'ft': 2, 'lens': [0, m, 0, 0, 0]} for m in ((0, 2) if q else (0, 1, 2, 5))]
+    parts += [{'ft': 3, 'lens': [d, 0, 0, 0, 0]} for d in ((0, 3) if q else (0, 1, 3, 8))]
+    parts += [{'ft': 11, 'lens': [d, 0, 0, 0, 0]} for d in ((0, 3) if q else (0, 1, 3, 8))]
+    parts += [{'ft': 12, 'lens': [0, m, 0, 0, 0]} for m in ((0, 3) if q else (0, 1, 3, 8))]
+    parts += [{'ft': 13, 'lens': [0, 0, t, 0, 0], 'h1': h} for t in ((0, 3) if q else (0, 1, 3, 8)) for h in range(4)]
+    parts += [{'ft': ft, 'lens': [0, 0, 0, 0, 0]} for ft in (8, 9, 14)]
+    return parts
+
+
+def spec_c02(tier, seed):
+    q = tier == 'quick'
+    parts = _c02_parts(q)
+    be = ('native', 'model')
+    return dict(
+        conds=[
+            STUBVAL,
+            Cond('c02_codec', 'c_roundtrip', parts=parts, backends=be, timeout=300),
+            Cond('c02_codec', 'c_bits24', backends=be, timeout=120),
+            Cond('c02_codec', 'c_pack_position', backends=be, timeout=120),
+            Cond('c02_codec', 'c_unpack_position', backends=be, timeout=120),
+            Cond('c02_codec', 'c_parse_type', backends=be, timeout=120),
+        ],
+        explanation='for each of the 14 frame classes and both bit-helper back ends (struct-based, and cbitstruct through its '
+                    'validated pure-Python model S5): real Frame.serialize == reference RSocket-1.0 encoding; '
+                    'parse_or_ignore(bytes) has every field equal (payload with content carries NEXT); re-encoding is '
+                    'byte-identical; TransportTCP.serialize_partial writes exactly serialize_with_frame_size_header(frame) '
+                    'with a correct 3-byte length. All numeric fields, flags and byte contents are solver variables; '
+                    'byte-string lengths are fixed per process.',
+        bounds=['stream id 31 bit, request-n/keep-alive 32 bit, LEASE ttl/count 31 bit, every flag, 11 error codes', 'positions inside frames: high word in {0,1,0x12345678,2^31-1} x symbolic low word; full 63-bit range by the pack/unpack lemmas',
+                'byte-string lengths from fixed tuples per type (data/metadata 0..3 (thorough ..17), token 0..3, MIME names 0..127); contents symbolic',
+                '%d (type, lengths) partitions x 2 back ends' % len(parts)],
+        outside=['frames with the reserved stream-id bit set, EXT frames, KEEPALIVE with metadata (never produced)',
+                 'content lengths other than the listed tuples (length arithmetic: C03 and c_bits24 over the full 24-bit range)'],
+        functions=['rsocket.frame.Frame.serialize', 'rsocket.frame.Frame.serialize_frame_prefix', 'rsocket.frame.parse_or_ignore',
+                   'rsocket.frame.parse_header_native', 'rsocket.frame.Frame.parse_metadata', 'rsocket.frame.Frame.parse_data',
+                   'rsocket.frame.SetupFrame.parse', 'rsocket.frame.SetupFrame.serialize_frame_prefix',
+                   'rsocket.frame.LeaseFrame.parse', 'rsocket.frame.KeepAliveFrame.parse', 'rsocket.frame.RequestStreamFrame.parse',
+                   'rsocket.frame.RequestChannelFrame.parse', 'rsocket.frame.RequestNFrame.parse', 'rsocket.frame.PayloadFrame.parse',
+                   'rsocket.frame.PayloadFrame.serialize_frame_prefix', 'rsocket.frame.ErrorFrame.parse',
+                   'rsocket.frame.MetadataPushFrame.parse', 'rsocket.frame.ResumeFrame.parse', 'rsocket.frame.ResumeOKFrame.parse',
+                   'rsocket.frame.serialize_with_frame_size_header', 'rsocket.frame.serialize_prefix_with_frame_size_header',
+                   'rsocket.frame.Frame.write_data_metadata', 'rsocket.transports.tcp.TransportTCP.serialize_partial',
+                   'rsocket.frame_helpers.pack_string', 'rsocket.frame_helpers.unpack_string',
+                   'rsocket.frame_helpers.unpack_32bit'],
+        stubs=['S1', 'S2', 'S3', 'S5 (cbitstruct model, validated against the compiled extension in this run)'],
+        assumptions=['the claim for the cbitstruct back end is modulo its model S5 (translation-validated every run)',
+                     'reference encoder in the harness written from the RSocket 1.0 frame layouts'],
+        technique_extra='; stub translation validation by differential execution',
+    )
